@@ -4,6 +4,8 @@
     replace_docstring, lambda extraction; token positions are inputs, cross-checked with
     asttokens) evaluated by vm_compute on the very texts modelx worked on, and
     Capture/Texts.v (structured texts, positions by construction, canonical form);
+    nested decorated defs (decorators that must SURVIVE capture and every edit) are ordinary
+    body lines of the structured text: c20gen.DefGen.nested_decorated;
 (P) oracle on the implementation: values / parameters equal the plain Python function,
     stored source is self-contained and AST-equal to the definition, recreation from the
     stored source is a fixed point, rename / doc change only the name token / docstring.
@@ -607,7 +609,18 @@ def run(tier, seed, rng):
     for c in cases:
         for o in c["ops"]:
             opsd[o["op"]] = opsd.get(o["op"], 0) + 1
+    # definitions holding a nested DECORATED def (inner function / method of a nested class): per creation mode,
+    # and how many of them are followed by each kind of edit
+    ND = {"nested_decorated_def", "nested_property_function", "nested_class_decorators"}
+    nested = {"redefinitions": 0}
+    for c in cases:
+        if ND & set(c.get("feat", [])):
+            nested[c["mode"]] = nested.get(c["mode"], 0) + 1
+            for o in {o["op"] for o in c["ops"]}:
+                nested["then_" + o] = nested.get("then_" + o, 0) + 1
+        nested["redefinitions"] += sum(1 for o in c["ops"] if o["op"] == "redefine" and ND & set(o.get("feat", [])))
     out.distribution = {"cases": len(cases), "corpus": ncorpus, "by_kind": kinds, "edits": opsd, "features": dict(sorted(feats.items())),
+                        "with_nested_decorated_def": nested,
                         "filtered": stats, "coq_terms": len(terms)}
     out.samples = [{"kind": c["kind"], "mode": c["mode"], "text": c.get("text"), "file_body": c.get("file_body"), "name": c.get("name"),
                     "ops": [{k: v for k, v in o.items() if k in ("op", "name", "doc", "ins", "via", "file_body")} for o in c["ops"]]}
@@ -618,6 +631,9 @@ def run(tier, seed, rng):
         "generator avoids the triggers of D30 (doc edit on a one-line body without docstring), D31 (unsafe doc), D32 (CR/FF/... in text), "
         "D33 (multi-line literal in an indented text), D10 (decorator with is_cached on an existing cells); filtered counts in distribution.filtered",
         "non-ASCII characters occur in comments and string literals only; function bodies evaluate to ints so that values can be compared by repr",
+        "about a quarter of the def texts hold a nested decorated definition (decorator defined earlier in the body, @property on an inner "
+        "function, @property/@staticmethod/@classmethod methods of a nested class; distribution.with_nested_decorated_def); they are built so "
+        "that losing a nested decorator changes the value or raises (c20gen.DefGen.nested_decorated); for the line/token model they are body lines",
     ]
     return out
 
